@@ -246,9 +246,16 @@ class AlgebraProfile(StoreProfile):
             run.check(Ls == U, "C10.%s_is_not_the_union" % rule,
                       dict(det, parts=rhs, only_whole=sorted(Ls - U), only_parts=sorted(U - Ls)))
         elif rule == "dstar":
+            # "a leaf type (one ending in the configured leaf key)": the leaf key is the one configured for the
+            # basetype of the part before '**' (with one leaf key per basetype, a root above the basetype level
+            # -- '*', 'hamlet' -- has the project's leaf key: the permissive reading, see DESIGN 12.3)
+            root = s.split("/**")[0]
+            rt = m.natural_type(root)
+            lk = m.leaf_keys.get(m.basetype(rt)) if rt else None
             U = set()
             for p in parts:
-                U |= {u for u in p[1] if ":" in u and m.is_leaf_type(u.split(":", 1)[0])}
+                U |= {u for u in p[1] if ":" in u and u.split(":", 1)[0] in m.by_name
+                      and m.by_name[u.split(":", 1)[0]].keys[-1] == lk}
             run.check(Ls == U, "C10.dstar_is_not_the_union_of_levels",
                       dict(det, parts=rhs, only_dstar=sorted(Ls - U), only_levels=sorted(U - Ls)))
         elif rule == "filter":
